@@ -4,7 +4,7 @@ Driver glue for C02.
   `C02 prog <fuel> <defs> <gens> <ops>`
       defs : Deferreds separated by `;`, each a `,`-list of callbacks (`_` = none; `-` = no Deferreds):
              `p` probe, `r<j>` returns d_j, `c<v>` returns v, `x<e>` raises, `f<j>` d_j.callback/errback
-      gens : generators separated by `;` (`-` = none), each `<out>:<items>`, items `,`-list of `y<i>` / `a<i>` (`-` = none)
+      gens : generators separated by `;` (`-` = none), each `<out>:<items>`, items `,`-list of `y<i>` / `a<i>` / `v<int>` = yields a non-Deferred (`-` = none)
       ops  : `,`-list (`-` = none) of `F<i>:<v>` callback, `E<i>:<e>` errback, `P<i>` pause, `U<i>` unpause,
              `A<i>:<cb>` addBoth, `S<g>` start generator
   `C02 shape <name> <n> <k>`   the scenarios of TwistedProps/C02.lean, fuel `20*n+200`:
@@ -40,6 +40,7 @@ def decItem (s : String) : Option Item :=
   match s.toList with
   | 'y' :: t => (decNat (String.ofList t)).map .yieldD
   | 'a' :: t => (decNat (String.ofList t)).map .awaitD
+  | 'v' :: t => (decInt (String.ofList t)).map .yieldV
   | _ => none
 
 def decGen (s : String) : Option Gen :=
